@@ -39,7 +39,7 @@ BIG = 999999.0
 
 @st.composite
 def plan_st(draw, tier):
-    cfg = draw(gen.config_st(lps=LPS, nps=[None], arm_kinds=("int", "str"), min_arms=2, max_arms=6, scale_ok=True))
+    cfg = draw(gen.config_st(lps=LPS, nps=[None], arm_kinds=("int", "str", "float", "mix"), min_arms=2, max_arms=6, scale_ok=True))
     h = gen.History(draw, cfg, max_rows=8)
     for _ in range(draw(st.sampled_from([0, 0, 1]))):
         gen.step_any(h, gen.ARM_KINDS + gen.WARM_KINDS)
